@@ -43,6 +43,7 @@ struct Params {
         int flags = ISAL_HASH_ENTIRE;
         uint32_t w = 16, mask = 0xf, trigger = 0;
         bool legacy = false;
+        bool xts_short = false; // allow XTS lengths below one block (legacy: returns at once; isal_: length error)
 };
 typedef std::function<bool(guard::Arena &, const Params &, Call &)> Builder;
 struct Entry {
@@ -226,7 +227,7 @@ static inline void add_aes(std::vector<Entry> &E)
                                                      c.entry = p.legacy ? lname : iname;
                                                      c.fn = sym(c.entry);
                                                      c.returns_int = !p.legacy;
-                                                     uint64_t len = p.len < 16 ? 16 : p.len;
+                                                     uint64_t len = (p.len < 16 && !p.xts_short) ? 16 : p.len;
                                                      std::vector<uint8_t> k1 = pbt::expandv(p.seed, bits / 8), k2 = pbt::expandv(p.seed + 1, bits / 8);
                                                      ref::Aes a1(k1.data(), bits), a2(k2.data(), bits);
                                                      if (ex) { k2 = a2.enc_schedule(); k1 = dec ? a1.dec_schedule() : a1.enc_schedule(); }
@@ -240,7 +241,7 @@ static inline void add_aes(std::vector<Entry> &E)
                                                      set_ptr(c, 4, "in", IN, ISAL_CRYPTO_ERR_NULL_SRC, in, len);
                                                      set_ptr(c, 5, "out", OUT, ISAL_CRYPTO_ERR_NULL_DST, out, len);
                                                      c.nargs = 6;
-                                                     c.result = [=](uint64_t) { return bytes_of(out, len); };
+                                                     c.result = [=](uint64_t) { return len < 16 ? std::vector<uint8_t>() : bytes_of(out, len); };
                                                      return c.fn != nullptr;
                                              } });
                         }
